@@ -13,7 +13,7 @@ from matched_markets.methodology.tbr_iroas import TBRiROAS
 
 ID = 'C18'
 LEVEL = 'exploration'
-RULE = ('Engine A: lattice of experiment frames with cooldown: 4 shapes x n_pre in {4,6,10} x n_test in {1,2,4} x cooldown in '
+RULE = ('Engine A: lattice of experiment frames with cooldown: 4 shapes x n_pre in {3 (one residual degree of freedom),4,6,10} x n_test in {1,2,4} x cooldown in '
         '{1,2} x control swing in the test period in {0, 20, 80, 240} (so that the reference cumulative scale decreases) x '
         'unassigned-period dates in {none, lead, gap, trail} x cost scenario in {fixed, variable, treatment-pre-cost-only (control never spends: slope-free cost regression)} x metric in {response, cost} x '
         'level in {0.6,0.8,0.9,0.95} x tails. Oracle: the call succeeds; lower <= estimate <= upper on every date for all three '
@@ -21,14 +21,15 @@ RULE = ('Engine A: lattice of experiment frames with cooldown: 4 shapes x n_pre 
         'cumulative row = incremental effect and the reference quantiles; series cover exactly the analysed dates. Known '
         'finding K1 is keyed by the REFERENCE condition "cumulative scale of the closed-form posterior is not non-decreasing" '
         '(equivalent to the failure, see DESIGN.md). Non-trivial = every frame x metric; distinct = distinct case.')
-ASSUMPTIONS = ['scope S1: levels > 0.5 only (with tails=1 and level <= 0.5 the documented lower bound lies above the median)',
+ASSUMPTIONS = ['frames whose pre-period fit has exactly zero residual variance (posterior scale 0) are dropped and counted',
+               'scope S1: levels > 0.5 only (with tails=1 and level <= 0.5 the documented lower bound lies above the median)',
                'value lattice as in C06/C07; comparisons at 1e-8 absolute / 1e-9 relative']
 
 
 def cases(tier, seed):
     out = []
     thorough = tier == 'thorough'
-    for sh, npre, ntest, ncool in itertools.product(frames.SHAPES[:4], (4, 6, 10), (1, 2, 4), (1, 2)):
+    for sh, npre, ntest, ncool in itertools.product(frames.SHAPES[:4], (3, 4, 6, 10), (1, 2, 4), (1, 2)):
         for swing in (0, 20, 80, 240):
             for extra in (None, 'lead', 'gap', 'trail'):
                 for scen in ('fixed', 'variable', 'treatment-pre-cost-only'):
@@ -67,6 +68,13 @@ def run_case(case):
     # control series constant in the pre-period (e.g. control never spends): the regression has no slope; the
     # counterfactual is the pre-period mean of the treatment series (closed form below), quantile clauses are skipped
     degenerate = (not fixed_cost) and float(np.ptp(np.asarray(xs[:npre], float))) == 0.0
+    ypre_ = np.asarray(ys[:npre], float)
+    if not fixed_cost:
+        # zero residual variance in the pre-period (posterior scale exactly 0, quantiles undefined) is outside the statement's
+        # "fitted experiment": such lattice points are dropped and counted, like in C05
+        rv = float(np.var(ypre_)) if degenerate else rstats.ols(xs[:npre], ys[:npre])['s2']
+        if rv <= 1e-12:
+            return {'viol': [], 'nontrivial': False, 'outcome': 'zero-residual-variance', 'counts': {'degenerate_frames_dropped': 1}}
     if not fixed_cost and not degenerate:
         post = rstats.tbr_posterior(xs[:npre], ys[:npre], xs[npre:], ys[npre:])
         sc_ = np.concatenate([[0.0], post['scale']])
